@@ -265,21 +265,27 @@ def validate_traces(work, module, cfg, shards, heap="3g", timeout=1800, par=None
     return acc, bad, st, tr
 
 
+def _weight(e):
+    r = e.get("res", {})
+    return 50 + r.get("w", 0) * r.get("hh", 0) + 3 * len(e.get("content") or []) + len(e.get("a") or []) + len(e.get("b") or [])
+
+
 def shard(events, n, key=None):
-    """Split events into at most n shards; events with the same key(ev) stay together and in order."""
+    """Split events into at most n shards of balanced cost (pixel count); events with the same key(ev) stay together
+    and in order. Without a key every event is its own group (order inside a shard follows the original order)."""
     if not events:
         return []
     n = max(1, min(n, len(events)))
-    if key is None:
-        size = (len(events) + n - 1) // n
-        return [events[i:i + size] for i in range(0, len(events), size)]
     groups = {}
-    for e in events:
-        groups.setdefault(key(e), []).append(e)
+    for idx, e in enumerate(events):
+        groups.setdefault(key(e) if key else idx, []).append((idx, e))
     shards = [[] for _ in range(n)]
-    for g in sorted(groups.values(), key=len, reverse=True):
-        min(shards, key=len).extend(g)
-    return [s for s in shards if s]
+    load = [0] * n
+    for g in sorted(groups.values(), key=lambda g: -sum(_weight(e) for _, e in g)):
+        k = load.index(min(load))
+        shards[k].extend(g)
+        load[k] += sum(_weight(e) for _, e in g)
+    return [[e for _, e in sorted(s, key=lambda t: t[0])] for s in shards if s]
 
 
 # ---------------------------------------------------------------------------------------------
